@@ -610,7 +610,8 @@ fn generate(seed: u64, tier: Tier, em: &mut Emitter) {
     }
 
     // 2. exhaustive: every valid/invalid bit pattern of length <= 8 x {seq, partitions 1..9} x 3 modes
-    let (max_unkeyed, max_keyed) = if thorough { (10, 9) } else { (8, 8) };
+    // (quick tier: keyed patterns up to length 6; thorough: unkeyed <= 10, keyed <= 9)
+    let (max_unkeyed, max_keyed) = if thorough { (10, 9) } else { (8, 6) };
     for keyed in [false, true] {
         let maxlen = if keyed { max_keyed } else { max_unkeyed };
         for len in 0..=maxlen {
